@@ -57,6 +57,9 @@ def check(col: Collector, tier: str):
     import_obligations(col, "C09.R11", "c15", lambda o: o.detail in ("every-copy-merges-its-dependencies", "unknown-dependency-raises-before-emission",
                                                                       "same-name-different-script-raises", "no-progress-raises-ValueError", "collects-every-job-script"),
                        "a dependency that is silently dropped is malformed metadata accepted")
+    import_obligations(col, "C09.R12", "c06", lambda o: o.rule == "C06.R5" and (o.detail in ("unknown-key-raises", "allowed-keys-are-a-constant-of-this-backend",
+                                                                                             "element_type-iff-contains_collection") or o.detail.startswith("allowed-key-read:")),
+                       "malformed or unknown collection metadata must be refused - for every history - and no accepted key may be dropped")
     # the refusals must not depend on history: this query's plug-in table is a copy, discovered children first
     from sa.props._tr import check_finder
     col.floor("C09.R10", 4)
@@ -357,11 +360,12 @@ REFUSALS = [
     (None, "getAttribute", "first-raise", "templated getAttribute"),
     (None, "process_metadata", "loop-else-raise", "unknown metadata type"),
     (None, "build_CPPCodeValue", "guard-raise:spec.method_object is None", "function invoked like a method"),
+    ("query_ast_visitor", "visit_Call", "guard-nonempty:call_node.keywords", "keyword arguments (they would be dropped)"),
 ]
 
 
 def check_refusals(col, repo: Repo, m):
-    col.floor("C09.R5", 18)
+    col.floor("C09.R5", 19)
     for cls, fname, how, what in REFUSALS:
         f = m.get(fname) if cls else repo.function(fname)
         if f is None:
@@ -400,14 +404,27 @@ def check_refusals(col, repo: Repo, m):
                 if isinstance(r, ast.Raise):
                     if any(needle in src(t) for t, _ in guards(f.node, r, pm)):
                         ok = True
+        elif how.startswith("guard-nonempty:"):
+            what_ = how.split(":", 1)[1].replace(" ", "")
+            forms = {f"len({what_})>0", f"len({what_})!=0", f"len({what_})>=1", what_, f"0<len({what_})", f"bool({what_})", f"{what_}!=[]"}
+            pm = parent_map(f.node)
+            for r in walk_no_nested(f.node):
+                if isinstance(r, ast.Raise):
+                    g = [(src(t).replace(" ", ""), tr_) for t, tr_ in guards(f.node, r, pm)]
+                    if len(g) == 1 and g[0][1] and g[0][0] in forms:
+                        ok = True
         if not ok and how in ("else-raise", "last-raise", "last-else-raise"):
-            # the dispatch may have been moved into a helper whose fall-through raises
-            for c in walk_no_nested(f.node):
-                if isinstance(c, ast.Call):
-                    for g in repo.resolve_call(f, c):
-                        gb = [s_ for s_ in g.node.body if not (isinstance(s_, ast.Expr) and isinstance(s_.value, ast.Constant))]
-                        if g.module is f.module and gb and isinstance(gb[-1], ast.Raise) and g.name not in ("get_rep",):
-                            ok = True
+            # the dispatch may have been moved into a helper: then the fall-through statement itself must be the call of a helper
+            # whose own fall-through raises
+            last = body[-1] if body else None
+            while isinstance(last, ast.If) and last.orelse:
+                last = last.orelse[-1]
+            c = last.value if isinstance(last, (ast.Return, ast.Expr)) and isinstance(getattr(last, "value", None), ast.Call) else None
+            if c is not None:
+                for g in repo.resolve_call(f, c):
+                    gb = [s_ for s_ in g.node.body if not (isinstance(s_, ast.Expr) and isinstance(s_.value, ast.Constant))]
+                    if g.module is f.module and gb and isinstance(gb[-1], ast.Raise) and g.name not in ("get_rep",):
+                        ok = True
         col.add("C09.R5", f.short, f"refusal:{what}", ok, f"{what}: the function must still end this case in a raise ({how})", f.loc)
 
 
